@@ -108,7 +108,7 @@ class ComputeDyadicDownscaling(Contract):
     one axis `div` / `odd` with the others `mult`. NO chunk-compatibility assumption is made: for
     incompatible pairs the function must raise."""
     target = DP + "compute_dyadic_downscaling"
-    props = ("C06", "C20")
+    props = ("C06",)
     use_at_call_sites = False
     path_budget = 3000
     timeout_ms = 60000
